@@ -23,6 +23,7 @@ RULE = (
 )
 ASSUMPTIONS = [
     "Names that occur only inside nested def / lambda / comprehension scopes are not in f's own symbol table and are not asserted either way; a closure variable of f that only a nested def or class body reads IS asserted (it is free in f), one that is merely declared nonlocal and never used is not.",
+    "Names that f mentions only inside annotations are not asserted either way: Python does not evaluate the annotations of parameters and local variables when f runs, so they are not names the body reads (symtable lists them as referenced).",
     "Python's symtable is the arbiter of scoping; a name declared `global` in f is 'external' even when f assigns it.",
 ]
 MECHANISMS = {}
@@ -40,6 +41,39 @@ def f_table(src):
         return None
 
     return find(top, ["factory", "f"]) or find(top, ["f"])
+
+
+def annotation_only_names(src):
+    """Names that f mentions only inside annotations (of its parameters, its return value or its
+    local variables).  Python does not evaluate those when f runs, so f's body does not read them
+    although symtable lists them as referenced."""
+    import ast
+
+    tree = ast.parse(src)
+    fdef = None
+    for node in ast.walk(tree):
+        if isinstance(node, ast.FunctionDef) and node.name == "f":
+            fdef = node
+            break
+    if fdef is None:
+        return set()
+    ann_nodes = []
+    for node in ast.walk(fdef):
+        if isinstance(node, ast.AnnAssign):
+            ann_nodes.append(node.annotation)
+        elif isinstance(node, ast.arg) and node.annotation is not None:
+            ann_nodes.append(node.annotation)
+        elif isinstance(node, ast.FunctionDef) and node.returns is not None:
+            ann_nodes.append(node.returns)
+    in_ann = set()
+    ann_ids = set()
+    for a in ann_nodes:
+        for n in ast.walk(a):
+            ann_ids.add(id(n))
+            if isinstance(n, ast.Name):
+                in_ann.add(n.id)
+    elsewhere = {n.id for n in ast.walk(fdef) if isinstance(n, ast.Name) and id(n) not in ann_ids}
+    return in_ann - elsewhere
 
 
 def nested_reads(tab, name):
@@ -104,9 +138,13 @@ def check_program(m, mod, res, case_base, icount):
     f = mod.f
     orig = f.__code__
     provs = set()
+    ann_only = annotation_only_names(m["src"])
     for sym in tab.get_symbols():
         name = sym.get_name()
         if name.startswith("."):
+            continue
+        if name in ann_only:
+            res.count("names_only_in_annotations_not_asserted")
             continue
         exp = expected_provenance(sym)
         if exp is None:
